@@ -541,6 +541,7 @@ def main(tier, replay=None):
     if drv:
         threads.append(threading.Thread(target=run_model))
     threads.append(threading.Thread(target=ext_part, args=(chk, vf.Rng(chk.seed + 77), tier, dist_ext)))
+    threads.append(threading.Thread(target=vec_part, args=(chk, vf.Rng(chk.seed + 78), himpl, dist_ext)))
     for th in threads:
         th.start()
     for fc in fields:
@@ -783,6 +784,41 @@ def main(tier, replay=None):
     chk.cov["fields_accepted_by_verified_checker"] = nchecked
     chk.cov["distribution"] = dist
     return chk.finish()
+
+
+def vec_part(chk, rng, himpl, dist):
+    """GFqDom::init(Rep&, const Vector&) (a polynomial over the prime field, any degree, reduced modulo the modulus).
+    The function keeps function-local statics from its first call in a process (a C16 matter), so every field gets its
+    own process; one field per storage type and vector element type instantiation."""
+    for (T, p, k) in [(32, 3, 3), (64, 5, 2), (32, 2, 6), (64, 2, 4)]:   # k >= 2: a prime field has no stored modulus (_irred is not set)
+        q = p ** k
+        xs = [0, 1, 2, q - 1, q, q + 5, p ** (2 * k) - 1] + [rng.range(1, q * q) for _ in range(12)]
+        lines = ["field %d auto %d %d" % (T, p, k)] + ["cvt vec %d" % x for x in xs]
+        rc, out, err = vf.run_lines(himpl, "\n".join(lines) + "\n", timeout=300)
+        if rc != 0 or len(out) != len(lines):
+            chk.fail_input("GFqDom::init(Rep&,Vector)", "crash", {"field": lines[0], "lines": lines[1:]}, "a result per line", "rc=%s, %d/%d lines" % (rc, len(out), len(lines)))
+            continue
+        t = out[0].split()
+        xi = t.index("X")
+        irred, g = (int(t[xi + 1]) if k > 1 else p), int(t[xi + 2])
+        P = PF(p, k, irred)
+        X = P.elt(p) if k > 1 else P.zero
+        for x, got in zip(xs, out[1:]):
+            dist["cvt:vec"] = dist.get("cvt:vec", 0) + 1
+            chk.count(("vec", T, p, k, x), nontrivial=(x >= q))
+            ds = []
+            m = x
+            while m:
+                ds.append(m % p)
+                m //= p
+            e = P.zero
+            for c in reversed(ds):
+                e = P.add(P.mul(e, X), P.elt(c))
+            toks = got.split()
+            if len(toks) != 2 or toks[1] != str(P.num(e)):
+                chk.fail_input("GFqDom::init(Rep&,Vector)", "degree>=k" if x >= q else "degree<k",
+                               {"field": lines[0], "irred": irred, "line": "cvt vec %d" % x}, P.num(e), got,
+                               "the polynomial with p-adic value x is not mapped to its residue modulo the defining polynomial")
 
 
 def build_harness_retry(src, **kw):
